@@ -20,6 +20,8 @@ Record state := mkState {
   authed : bool;            (* is_authenticated() *)
   ah : ah_kind;
   srt : bool;               (* ServiceRequestingTransport (adds SERVICE_ACCEPT to its table) *)
+  rekey : bool;             (* own KEXINIT of a re-key sent, peer's not yet received: in_kex is set,
+                               clear_to_send is cleared, _expected_packet is still empty *)
   expected : list Z         (* self._expected_packet *)
 }.
 
@@ -57,27 +59,33 @@ Definition name_of (p : Z) : result unit :=
 
 (* the `else:` branch: log, then unless ptype is UNIMPLEMENTED send
    byte(UNIMPLEMENTED) ++ uint32(m.seqno) *)
-Definition fallback (p seq : Z) : outcome :=
+(* `blocked`: the reply is sent with _send_user_message while clear_to_send is cleared; the only
+   thread that could set it again is the one that is waiting: after clear_to_send_timeout it raises
+   SSHException("Key-exchange timed out ...") and the transport dies without having replied *)
+Definition fallback (blocked : bool) (p seq : Z) : outcome :=
   match name_of p with
   | Raise e => Die e
   | Ok _ =>
       if negb (p =? MSG_UNIMPLEMENTED) then
         if (0 <=? seq) && (seq <? 2 ^ 32)
-        then Fallback (Some (MSG_UNIMPLEMENTED :: be_encode 4 seq))
+        then if blocked then Die SSHExc
+             else Fallback (Some (MSG_UNIMPLEMENTED :: be_encode 4 seq))
         else Die StructErr
       else Fallback None
   end.
 
+Definition send_blocked (st_rekey : bool) : bool := fallback_send_blocking && st_rekey.
+
 (* the fallback as it was before the repair (`name = MSG_NAMES[ptype]`), kept to document the defect *)
 Definition fallback_v0 (p seq : Z) : outcome :=
-  if mem p msg_names then fallback p seq else Die KeyErr.
+  if mem p msg_names then fallback false p seq else Die KeyErr.
 
 Definition ladder (st : state) (p seq : Z) : outcome :=
   if mem p (transport_table st) then
     if ensure_authed_blocks st p then Gated p else TransportHandler p
   else if mem p channel_handler_table then ChannelHandler p
   else if mem p (auth_table st) then AuthHandlerCall p   (* auth_handler is None: empty table *)
-  else fallback p seq.
+  else fallback (send_blocked (rekey st)) p seq.
 
 Definition dispatch (st : state) (p seq : Z) : outcome :=
   if p =? MSG_IGNORE then Skip
@@ -90,6 +98,14 @@ Definition dispatch (st : state) (p seq : Z) : outcome :=
            else if (30 <=? p) && (p <=? 41) then KexStep
            else ladder st p seq        (* _expected_packet was reset to () *)
        end.
+
+(* Packetizer.read_message comes first: an unguarded MSG_NAMES[cmd] there (whatever switch - packet
+   hexdump logging, a log level - its code path hangs on) raises KeyError in the transport thread for a
+   type without a name, before the ladder is reached *)
+Definition reader_ok (p : Z) : bool := negb reader_lookup_strict || mem p msg_names.
+
+Definition receive (st : state) (p seq : Z) : outcome :=
+  if reader_ok p then dispatch st p seq else Die KeyErr.
 
 (* the transport is still running its loop afterwards *)
 Definition alive (o : outcome) : bool :=
@@ -111,7 +127,7 @@ Fixpoint run_stream (st : state) (seq : Z) (pkts : list Z) : list (list Z) * boo
   match pkts with
   | [] => ([], true)
   | p :: r =>
-      match dispatch st p seq with
+      match receive st p seq with
       | Fallback rep =>
           let '(out, a) := run_stream st (next_seq seq) r in
           (match rep with Some m => m :: out | None => out end, a)
@@ -127,10 +143,6 @@ Fixpoint expected_replies (seq : Z) (pkts : list Z) : list (list Z) :=
       (if p =? MSG_UNIMPLEMENTED then [] else [MSG_UNIMPLEMENTED :: be_encode 4 seq])
       ++ expected_replies (next_seq seq) r
   end.
-
-Definition all_states : list state :=
-  flat_map (fun sm => flat_map (fun au => flat_map (fun a => map (fun s => mkState sm au a s [])
-     [true; false]) [AHNone; AHPlain; AHAuthOnly; AHGss]) [true; false]) [true; false].
 
 Definition types256 : list Z := map Z.of_nat (seq 0 256).
 
@@ -152,18 +164,18 @@ Definition canon_outcome (o : outcome) : list Z :=
 Definition ah_of_code (c : Z) : ah_kind :=
   if c =? 0 then AHNone else if c =? 1 then AHPlain else if c =? 2 then AHAuthOnly else AHGss.
 
-(* (server_mode, authed, ah code, srt, ptype, seqno) *)
-Definition run_dispatch (c : bool * bool * Z * bool * Z * Z) : list Z :=
-  let '(sm, au, a, s, p, sq) := c in
-  canon_outcome (dispatch (mkState sm au (ah_of_code a) s []) p sq).
+(* (server_mode, authed, ah code, srt, rekey, ptype, seqno) *)
+Definition run_dispatch (c : bool * bool * Z * bool * bool * Z * Z) : list Z :=
+  let '(sm, au, a, s, rk, p, sq) := c in
+  canon_outcome (receive (mkState sm au (ah_of_code a) s rk []) p sq).
 
 (* the set of unhandled types of a state, for the harness to sweep *)
 Definition run_unhandled (c : bool * bool * Z * bool) : list Z :=
   let '(sm, au, a, s) := c in
-  filter (unhandled (mkState sm au (ah_of_code a) s [])) types256.
+  filter (unhandled (mkState sm au (ah_of_code a) s false [])) types256.
 
 (* (server_mode, authed, ah code, srt, first seqno, ptypes): the replies, flattened, then alive *)
-Definition run_stream_case (c : bool * bool * Z * bool * Z * list Z) : list Z :=
-  let '(sm, au, a, s, sq, pkts) := c in
-  let '(out, al) := run_stream (mkState sm au (ah_of_code a) s []) sq pkts in
+Definition run_stream_case (c : bool * bool * Z * bool * bool * Z * list Z) : list Z :=
+  let '(sm, au, a, s, rk, sq, pkts) := c in
+  let '(out, al) := run_stream (mkState sm au (ah_of_code a) s rk []) sq pkts in
   concat out ++ [if al then 1 else 0].
